@@ -843,6 +843,84 @@ fn trim_by_count(data: &mut StreamData, stream: &mut Stream, max_count: usize) -
 //@@ body
 //@@ end
 
+/// `ids.to_vec()`, `.sort()`, `.dedup()` (RT site, three statements in one helper): ASSUMED — some vector with the same SET of ids (what order and how
+/// often does not matter to the loop below: an id that is gone is not found again)
+#[verifier::external_body]
+pub fn verif_sorted_dedup(ids: &[StreamId]) -> (r: Vec<StreamId>)
+    ensures forall|x: StreamId| #[trigger] r@.contains(x) <==> ids@.contains(x),
+{ unimplemented!() }
+/// membership in a sequence without its element at idx, for a sequence of pairwise different elements
+pub proof fn lemma_remove_contains(s: Seq<StreamEntry>, idx: int)
+    requires 0 <= idx < s.len(), forall|i: int, j: int| 0 <= i < j < s.len() ==> s[i] != s[j],
+    ensures forall|x: StreamEntry| #[trigger] s.remove(idx).contains(x) <==> (s.contains(x) && x != s[idx]),
+{
+    assert forall|x: StreamEntry| #[trigger] s.remove(idx).contains(x) <==> (s.contains(x) && x != s[idx]) by {
+        if s.remove(idx).contains(x) {
+            let k = choose|k: int| 0 <= k < s.remove(idx).len() && s.remove(idx)[k] == x;
+            if k < idx { assert(s[k] == x); } else { assert(s[k + 1] == x); }
+        }
+        if s.contains(x) && x != s[idx] {
+            let k = choose|k: int| 0 <= k < s.len() && s[k] == x;
+            if k < idx { assert(s.remove(idx)[k] == x); } else { assert(s.remove(idx)[k - 1] == x); }
+        }
+    }
+}
+
+//@@ unit stream_delete fn src/storage/stream.rs Stream::delete
+//@@   params drop "&self" add "data: &mut StreamData" add "stream: &mut Stream"
+//@@   rewrite RT "let mut data = self.data.lock().unwrap();" ""
+//@@   rewrite RT "let mut sorted_ids = ids.to_vec();" "let sorted_ids = verif_sorted_dedup(ids);"
+//@@   rewrite RT "sorted_ids.sort();" ""
+//@@   rewrite RT "sorted_ids.dedup();" ""
+//@@   rewrite RT "let mut deleted = 0;" "let mut deleted: usize = 0;"
+//@@   rewrite RT "let mut memory_freed = 0;" "let mut memory_freed: usize = 0;"
+//@@   rewrite RXPR "data.entries.binary_search_by(|e| e.id.cmp(id))" "verif_bsearch(&data.entries, id)"
+//@@   rewrite RT "memory_freed += StreamData::calculate_entry_size(&removed_entry);" "memory_freed = memory_freed.wrapping_add(StreamData::calculate_entry_size(&removed_entry));"
+//@@   rewrite RT "data.memory_usage -= memory_freed;" "data.memory_usage = data.memory_usage.wrapping_sub(memory_freed);"
+//@@   rewrite RT "self.length.fetch_sub(deleted, Ordering::Relaxed);" "stream.length = stream.length - deleted;"
+//@@   rewrite RT "self.memory_usage.fetch_sub(memory_freed, Ordering::Relaxed);" "stream.memory_usage = stream.memory_usage.wrapping_sub(memory_freed);"
+//@@   rewrite RFORS 0
+//@@   at "for id in sorted_ids.iter().rev()"
+//@@|     let ghost es = old(data).entries@; let ghost sid = sorted_ids@;
+//@@   loop 0
+//@@|     invariant
+//@@|         id__n <= sid.len(), sid == sorted_ids@, es == old(data).entries@, crate::sorted_ids(es), crate::sorted_ids(data.entries@),
+//@@|         data.last_id == old(data).last_id, *stream == *old(stream), stream.length == es.len(),
+//@@|         deleted + data.entries@.len() == es.len(),
+//@@|         forall|x: StreamEntry| #[trigger] data.entries@.contains(x) <==> (es.contains(x) && !sid.subrange(id__n as int, sid.len() as int).contains(x.id)),
+//@@|     decreases id__n,
+//@@   loopstart 0
+//@@|     let ghost n1 = id__n as int; let ghost cur = data.entries@;
+//@@|     proof {
+//@@|         assert(sid.subrange(n1, sid.len() as int) =~= seq![*id] + sid.subrange(n1 + 1, sid.len() as int));
+//@@|         assert forall|y: StreamId| #[trigger] sid.subrange(n1, sid.len() as int).contains(y) <==> (y == *id || sid.subrange(n1 + 1, sid.len() as int).contains(y)) by {
+//@@|             let a = sid.subrange(n1, sid.len() as int); let b = sid.subrange(n1 + 1, sid.len() as int);
+//@@|             if a.contains(y) { let k = choose|k: int| 0 <= k < a.len() && a[k] == y; if k > 0 { assert(b[k - 1] == y); } }
+//@@|             if b.contains(y) { let k = choose|k: int| 0 <= k < b.len() && b[k] == y; assert(a[k + 1] == y); }
+//@@|             if y == *id { assert(a[0] == y); }
+//@@|         }
+//@@|         assert forall|i: int, j: int| 0 <= i < j < cur.len() implies cur[i] != cur[j] by { }
+//@@|     }
+//@@   after "let removed_entry = data.entries.remove(idx);"
+//@@|     proof { lemma_remove_contains(cur, idx as int); assert(removed_entry == cur[idx as int]);
+//@@|         assert forall|x: StreamEntry| cur.contains(x) && x.id == *id implies x == cur[idx as int] by { let k = choose|k: int| 0 <= k < cur.len() && cur[k] == x; if k != idx { if k < idx { assert(cur[k].id.packed < cur[idx as int].id.packed); } else { assert(cur[idx as int].id.packed < cur[k].id.packed); } } } }
+//@@   afterloop 0
+//@@|     proof {
+//@@|         assert(sid.subrange(0, sid.len() as int) =~= sid);
+//@@|         assert forall|j: int| 0 <= j < data.entries@.len() implies (#[trigger] data.entries@[j]).id.packed <= data.last_id.packed by {
+//@@|             assert(data.entries@.contains(data.entries@[j])); let k = choose|k: int| 0 <= k < es.len() && es[k] == data.entries@[j];
+//@@|         }
+//@@|     }
+fn delete(data: &mut StreamData, stream: &mut Stream, ids: &[StreamId]) -> (r: usize)
+    requires log_wf(*old(data), *old(stream)),
+    ensures log_wf(*final(data), *final(stream)), final(data).last_id == old(data).last_id,
+        // C15 (XDEL): exactly the entries whose id is named go — each once however often it is named, unknown ids change nothing — the others
+        // stay in their order (the log stays sorted); the reply is how many went; XLEN follows
+        forall|x: StreamEntry| #[trigger] final(data).entries@.contains(x) <==> (old(data).entries@.contains(x) && !ids@.contains(x.id)),
+        r + final(data).entries@.len() == old(data).entries@.len(),
+//@@ body
+//@@ end
+
 //@@ unit stream_trim_by_min_id fn src/storage/stream.rs Stream::trim_by_min_id
 //@@   params drop "&self" add "data: &mut StreamData" add "stream: &mut Stream"
 //@@   rewrite RT "let mut data = self.data.lock().unwrap();" ""
